@@ -79,20 +79,12 @@ static uint64_t splitmix(uint64_t *s) {
     return z ^ (z >> 31);
 }
 
+static void set_key_hex(const char *k);
+
 static void init_once(void) {
     if (ready) return;
     ready = 1;
-    const char *k = getenv("GRAMSIM_KEY");
-    if (k) {
-        while (k[0] && k[1] && key_len < sizeof key_bytes) {
-            int hi = hexval(k[0]), lo = hexval(k[1]);
-            if (hi < 0 || lo < 0) break;
-            key_bytes[key_len++] = (unsigned char)(hi * 16 + lo);
-            k += 2;
-        }
-    }
-    tail_state = 0x6772616d73696dULL;
-    for (size_t i = 0; i < key_len; i++) tail_state = tail_state * 0x100000001B3ULL + key_bytes[i];
+    set_key_hex(getenv("GRAMSIM_KEY"));
     const char *e = getenv("GRAMSIM_EINTR");
     if (e) eintr_left = strtol(e, NULL, 10);
     const char *n = getenv("GRAMSIM_NOINSECURE");
@@ -122,26 +114,31 @@ static void log_call(size_t len, unsigned flags, long ret) {
     }
 }
 
-__attribute__((constructor)) static void gramsim_ctor(void) {
-    init_once();
-    size_t did_heap = 0, did_mmap = 0;
-    const char *h = getenv("GRAMSIM_SKEW_HEAP");
-    if (h) {
-        size_t n = (size_t)strtoul(h, NULL, 10);
-        if (n) {
-            volatile char *p = malloc(n);
-            if (p) { p[0] = 1; did_heap = n; } /* leaked on purpose */
-        }
+static void set_key_hex(const char *k) {
+    key_len = 0;
+    key_pos = 0;
+    while (k && k[0] && k[1] && key_len < sizeof key_bytes) {
+        int hi = hexval(k[0]), lo = hexval(k[1]);
+        if (hi < 0 || lo < 0) break;
+        key_bytes[key_len++] = (unsigned char)(hi * 16 + lo);
+        k += 2;
     }
-    const char *m = getenv("GRAMSIM_SKEW_MMAP");
-    if (m) {
-        size_t n = (size_t)strtoul(m, NULL, 10);
-        if (n) {
-            /* Address space only: glibc places thread arenas at 64 MiB-aligned addresses, so
-               the displacement has to be of that order to move a worker thread's heap at all. */
-            void *p = mmap(NULL, n, PROT_NONE, MAP_PRIVATE | MAP_ANONYMOUS | MAP_NORESERVE, -1, 0);
-            if (p != MAP_FAILED) did_mmap = n; /* leaked on purpose */
-        }
+    tail_state = 0x6772616d73696dULL;
+    for (size_t i = 0; i < key_len; i++) tail_state = tail_state * 0x100000001B3ULL + key_bytes[i];
+}
+
+/* Displace the heap and the mmap area by the amounts the plan chose, and say so in the log. */
+static void displace(size_t heap, size_t map) {
+    size_t did_heap = 0, did_mmap = 0;
+    if (heap) {
+        volatile char *p = malloc(heap);
+        if (p) { p[0] = 1; did_heap = heap; } /* leaked on purpose */
+    }
+    if (map) {
+        /* Address space only: glibc places thread arenas at 64 MiB-aligned addresses, so the
+           displacement has to be of that order to move a worker thread's heap at all. */
+        void *p = mmap(NULL, map, PROT_NONE, MAP_PRIVATE | MAP_ANONYMOUS | MAP_NORESERVE, -1, 0);
+        if (p != MAP_FAILED) did_mmap = map; /* leaked on purpose */
     }
     if ((did_heap || did_mmap) && log_fd >= 0) {
         char line[96];
@@ -151,6 +148,136 @@ __attribute__((constructor)) static void gramsim_ctor(void) {
             (void)w;
         }
     }
+}
+
+/*
+ * Fork server (GRAMSIM_FORKSERVER=1): process creation by exec costs ~13 ms in this kind of VM and
+ * does not scale with cores, so the simulator can instead start the real binary once, stop it
+ * here - after the dynamic loader, before the executable's own initialisers and main - and fork
+ * one child per launch. Each child receives its plan, its arguments, its environment and its
+ * output files over the control pipe (fd 0), then simply returns from this constructor and runs
+ * the unmodified program. The parent reports "P <pid>" and, when the child has ended,
+ * "X <wait status>" on fd 1.
+ */
+static int read_line(int fd, char *buf, size_t cap) {
+    size_t n = 0;
+    for (;;) {
+        char c;
+        ssize_t r = read(fd, &c, 1);
+        if (r == 0) return n ? (int)n : -1;
+        if (r < 0) {
+            if (errno == EINTR) continue;
+            return -1;
+        }
+        if (c == '\n') break;
+        if (n + 1 < cap) buf[n++] = c;
+    }
+    buf[n] = 0;
+    return (int)n;
+}
+
+#include <signal.h>
+#include <sys/prctl.h>
+#include <sys/wait.h>
+
+static void forkserver(char **argv) {
+    static char line[1 << 16];
+    char out_path[4096] = "", err_path[4096] = "", log_path[4096] = "", cwd[4096] = "";
+    char key_hex[600] = "";
+    size_t heap = 0, map = 0;
+    long p_eintr = 0, p_noinsecure = 0, p_chunk = 0, p_pid = 0;
+    unsigned long long p_clock = 0, p_step = 0;
+    int have_clock = 0;
+    /* pending argv / env edits of the next launch */
+    static char *arg_val[16];
+    static char *env_set[32];
+    static char *env_unset[32];
+    int n_env_set = 0, n_env_unset = 0;
+    memset(arg_val, 0, sizeof arg_val);
+    for (;;) {
+        int n = read_line(0, line, sizeof line);
+        if (n < 0) _exit(0);
+        if (!strncmp(line, "KEY ", 4)) { strncpy(key_hex, line + 4, sizeof key_hex - 1); }
+        else if (!strncmp(line, "EINTR ", 6)) p_eintr = strtol(line + 6, NULL, 10);
+        else if (!strncmp(line, "NOINSECURE ", 11)) p_noinsecure = strtol(line + 11, NULL, 10);
+        else if (!strncmp(line, "CHUNK ", 6)) p_chunk = strtol(line + 6, NULL, 10);
+        else if (!strncmp(line, "SKEW_HEAP ", 10)) heap = strtoul(line + 10, NULL, 10);
+        else if (!strncmp(line, "SKEW_MMAP ", 10)) map = strtoul(line + 10, NULL, 10);
+        else if (!strncmp(line, "CLOCK ", 6)) {
+            char *end = NULL;
+            p_clock = strtoull(line + 6, &end, 10);
+            p_step = end ? strtoull(end, NULL, 10) : 0;
+            have_clock = 1;
+        }
+        else if (!strncmp(line, "PID ", 4)) p_pid = strtol(line + 4, NULL, 10);
+        else if (!strncmp(line, "LOG ", 4)) strncpy(log_path, line + 4, sizeof log_path - 1);
+        else if (!strncmp(line, "OUT ", 4)) strncpy(out_path, line + 4, sizeof out_path - 1);
+        else if (!strncmp(line, "ERR ", 4)) strncpy(err_path, line + 4, sizeof err_path - 1);
+        else if (!strncmp(line, "CWD ", 4)) strncpy(cwd, line + 4, sizeof cwd - 1);
+        else if (!strncmp(line, "ENV ", 4)) { if (n_env_set < 32) env_set[n_env_set++] = strdup(line + 4); }
+        else if (!strncmp(line, "UNSETENV ", 9)) { if (n_env_unset < 32) env_unset[n_env_unset++] = strdup(line + 9); }
+        else if (!strncmp(line, "ARG ", 4)) {
+            char *end = NULL;
+            long i = strtol(line + 4, &end, 10);
+            if (i > 0 && i < 16 && end && *end == ' ') arg_val[i] = strdup(end + 1);
+        }
+        else if (!strcmp(line, "GO")) {
+            pid_t child = fork();
+            if (child == 0) {
+                /* the launch: become exactly what an exec'd gram would be at this point */
+                prctl(PR_SET_PDEATHSIG, SIGKILL);
+                int devnull = open("/dev/null", O_RDONLY);
+                int out = open(out_path, O_WRONLY | O_CREAT | O_TRUNC, 0644);
+                int err = open(err_path, O_WRONLY | O_CREAT | O_TRUNC, 0644);
+                if (devnull < 0 || out < 0 || err < 0) _exit(125);
+                dup2(devnull, 0); dup2(out, 1); dup2(err, 2);
+                close(devnull); close(out); close(err);
+                if (cwd[0] && chdir(cwd) != 0) _exit(125);
+                for (int i = 0; i < n_env_unset; i++) unsetenv(env_unset[i]);
+                for (int i = 0; i < n_env_set; i++) putenv(env_set[i]);
+                unsetenv("GRAMSIM_FORKSERVER");
+                for (int i = 1; i < 16; i++) if (arg_val[i]) argv[i] = arg_val[i];
+                set_key_hex(key_hex);
+                eintr_left = p_eintr; no_insecure = (int)p_noinsecure; chunk = (size_t)p_chunk;
+                clock_owned = have_clock; clock_base = p_clock; clock_step = p_step; clock_reads = 0;
+                fake_pid = p_pid;
+                log_fd = log_path[0] ? open(log_path, O_WRONLY | O_CREAT | O_APPEND | O_CLOEXEC, 0644) : -1;
+                displace(heap, map);
+                return; /* on to the executable's initialisers and main */
+            }
+            char msg[64];
+            int k = snprintf(msg, sizeof msg, "P %d\n", (int)child);
+            if (write(1, msg, (size_t)k) < 0) _exit(0);
+            int status = 0;
+            if (child > 0) {
+                while (waitpid(child, &status, 0) < 0 && errno == EINTR) {}
+            } else {
+                status = 0x7f00; /* fork failed: report as exit 127 */
+            }
+            k = snprintf(msg, sizeof msg, "X %d\n", status);
+            if (write(1, msg, (size_t)k) < 0) _exit(0);
+            /* reset the per-launch edits */
+            for (int i = 0; i < n_env_set; i++) free(env_set[i]);
+            for (int i = 0; i < n_env_unset; i++) free(env_unset[i]);
+            for (int i = 1; i < 16; i++) { free(arg_val[i]); arg_val[i] = NULL; }
+            n_env_set = n_env_unset = 0;
+            heap = map = 0; p_eintr = p_noinsecure = p_chunk = p_pid = 0; have_clock = 0;
+            out_path[0] = err_path[0] = log_path[0] = cwd[0] = key_hex[0] = 0;
+        }
+    }
+}
+
+__attribute__((constructor)) static void gramsim_ctor(int argc, char **argv, char **envp) {
+    (void)argc; (void)envp;
+    init_once();
+    const char *fs = getenv("GRAMSIM_FORKSERVER");
+    if (fs && fs[0] == '1') {
+        forkserver(argv); /* returns only in a forked child, fully configured */
+        return;
+    }
+    const char *h = getenv("GRAMSIM_SKEW_HEAP");
+    const char *m = getenv("GRAMSIM_SKEW_MMAP");
+    displace(h ? (size_t)strtoul(h, NULL, 10) : 0, m ? (size_t)strtoul(m, NULL, 10) : 0);
 }
 
 ssize_t getrandom(void *buf, size_t buflen, unsigned int flags) {
